@@ -138,11 +138,87 @@ func c07Codec(run *Run, cd *codecDef) {
 
 func c07(args []string) int {
 	run := NewRun("C07", args)
-	run.Sum.Rule = "per codec: streams of 1-4 structured valid frames (generator of C08; every third stream may hold a 64KiB+ frame; every fifth ends in an incomplete frame) cut at EVERY single position (sampled above 600 bytes), +-4 around every frame boundary, every PAIR of positions (streams <= 90 bytes), into 1-byte reads, and at random; each segmentation is fed read by read into one accumulating IoBuffer with the Dispatch loop around the REAL Decode. Non-trivial = more than one chunk; distinct by (codec, stream, cut set). matchers: the seven real protocol matchers on every prefix (0..40 bytes and the whole) of generated frames of every codec, HTTP/1 request lines, the HTTP/2 preface, a crafted bolt frame carrying the dubbo-thrift magic at offset 4, and random bytes; the real SelectStreamFactoryProtocol is called 400 times when two matchers accept. selection: the REAL SelectStreamFactoryProtocol (all seven registered factories, Go map order) on EVERY prefix of valid first frames of every protocol (tars packages of 30..300 bytes included): the verdict must be the one-read verdict or EAGAIN."
+	run.Sum.Rule = "per codec: streams of 1-4 structured valid frames (generator of C08; every third stream may hold a 64KiB+ frame; every fifth ends in an incomplete frame) cut at EVERY single position (sampled above 600 bytes), +-4 around every frame boundary, every PAIR of positions (streams <= 90 bytes), into 1-byte reads, and at random; each segmentation is fed read by read into one accumulating IoBuffer with the Dispatch loop around the REAL Decode. Non-trivial = more than one chunk; distinct by (codec, stream, cut set). mixed: bolt-family streams mixing v1/v2 requests, one-way requests, responses, heartbeats and heartbeat acks (incl. the minimal 20-byte v1 response, also as the last frame) through BOTH entry codecs, received up to every frame end and one byte more. matchers: the seven real protocol matchers on every prefix (0..40 bytes and the whole) of generated frames of every codec, HTTP/1 request lines, the HTTP/2 preface, a crafted bolt frame carrying the dubbo-thrift magic at offset 4, and random bytes; the real SelectStreamFactoryProtocol is called 400 times when two matchers accept. selection: the REAL SelectStreamFactoryProtocol (all seven registered factories, Go map order) on EVERY prefix of valid first frames of every protocol (tars packages of 30..300 bytes included): the verdict must be the one-read verdict or EAGAIN."
 	for _, cd := range codecDefs() {
 		c07Codec(run, cd)
 	}
+	c07BoltMixed(run)
 	c07Matchers(run)
 	c07Select(run)
 	return run.Finish()
+}
+
+// c07BoltMixed: MIXED-version streams (bolt v1 and v2 requests, one-way requests, responses, heartbeats, heartbeat acks incl.
+// the minimal 20-byte v1 response) through BOTH entry codecs, cut at every frame end and one byte after it, the short v1 frame
+// also as the LAST frame.  Finder: every COMPLETE frame in the received bytes is extracted (`<entry>:complete-frame-not-extracted`).
+func c07BoltMixed(run *Run) {
+	r := run.R
+	mk := func(v2 bool, kind byte, cmdcode uint16, small bool) []byte {
+		f := &boltFrame{V2: v2, Kind: kind, First: 1, Ver1: 1, CmdCode: cmdcode, Ver2: 1, ReqID: uint32(r.U64()), Codec: 1, Tail: uint32(r.Intn(3000))}
+		if v2 {
+			f.First = 2
+		}
+		if kind == 0 {
+			f.Tail &= 0xffff
+		}
+		if !small {
+			f.Class = []byte(randName(r, r.Intn(12)))
+			if r.Pct(60) {
+				f.KVs = [][2]string{{"service", randName(r, 1+r.Intn(8))}}
+				f.Hdr = encKVs(f.KVs)
+			}
+			f.Content = r.Bytes(r.Intn(20))
+		}
+		return f.bytes()
+	}
+	minimalV1Resp := func() []byte { return mk(false, 0, 0, true) } // 20 bytes: the v1 heartbeat ack
+	pool := []func() []byte{
+		func() []byte { return mk(false, 1, 1, false) }, func() []byte { return mk(true, 1, 1, false) },
+		func() []byte { return mk(false, 2, 1, false) }, func() []byte { return mk(true, 2, 1, false) },
+		func() []byte { return mk(false, 0, 2, false) }, func() []byte { return mk(true, 0, 2, false) },
+		func() []byte { return mk(false, 1, 0, true) }, func() []byte { return mk(true, 1, 0, true) }, // heartbeats
+		minimalV1Resp, func() []byte { return mk(true, 0, 0, true) }, // heartbeat acks (20 and 22 bytes)
+		func() []byte { return mk(false, 0, 2, true) }, // empty v1 response
+	}
+	defs := codecDefs()
+	for _, cd := range defs[:2] { // bolt and boltv2 entry
+		sh := run.NewShard(cd.Header, cd.SegType, cd.SegEval)
+		for i := 0; i < run.N(12, 150); i++ {
+			nfr := 2 + r.Intn(4)
+			var stream []byte
+			var ends []int
+			for k := 0; k < nfr; k++ {
+				fr := pool[r.Intn(len(pool))]()
+				if k == nfr-1 && i%2 == 0 {
+					fr = minimalV1Resp()
+				}
+				stream = append(stream, fr...)
+				ends = append(ends, len(stream))
+			}
+			rep0 := map[string]interface{}{"entry": cd.Name, "stream_hex": Hex(stream), "frame_ends": ends}
+			for k, e := range ends {
+				for _, cut := range []int{e, e + 1} {
+					if cut > len(stream) {
+						continue
+					}
+					so := decodeLoop(cd.Proto, cd.Sum, [][]byte{stream[:cut]})
+					run.Count(fmt.Sprintf("%s|mixed|%d|%d", cd.Name, i, cut), true, cd.Name+":mixed-version-stream")
+					if so.Closed || len(so.Events) < k+1 {
+						rep := map[string]interface{}{"entry": cd.Name, "stream_hex": Hex(stream), "frame_ends": ends, "received": cut, "complete_frames": k + 1, "extracted": len(so.Events), "closed": so.Closed}
+						run.Fail(cd.Name+":complete-frame-not-extracted", fmt.Sprintf("%s entry: %d bytes received hold %d complete bolt-family frames but only %d were extracted (closed=%v): a complete frame waits for bytes that may never come", cd.Name, cut, k+1, len(so.Events), so.Closed), rep)
+					}
+					// chunked = whole (finder) and the Coq model
+					two := decodeLoop(cd.Proto, cd.Sum, cutAt(stream, []int{cut}))
+					whole := decodeLoop(cd.Proto, cd.Sum, [][]byte{stream})
+					if two.key() != whole.key() {
+						run.Fail(cd.Name+":segmentation-dependent:mixed-version-stream", fmt.Sprintf("%s entry: cutting the mixed-version stream at %d changes the extracted frames", cd.Name, cut), rep0)
+					}
+					if k == len(ends)-1 || (i+k)%3 == 0 {
+						sh.Add(cd.SegTerm([][]byte{stream[:cut]}, so), map[string]interface{}{"entry": cd.Name, "received": cut, "frame_ends": ends})
+					}
+				}
+			}
+		}
+		sh.Close()
+	}
 }
